@@ -39,7 +39,11 @@ PROPS = {
                  'the result is unique)', 'Go unicode tables'],
         level_text='Lean 4 theorems: the packed uint64 comparison equals the generic lexicographic one for all uint16 '
                    'quadruples; it is a strict total order on distinct items (asymmetric-total, transitive) with and without '
-                   '--tac; worker slices partition the snapshot for every chunk and partition count. Merger.Get under arbitrary '
+                   '--tac; worker slices partition the snapshot for every chunk and partition count; the lazy k-way merge of the '
+                   'workers\' sorted lists yields, for any number and lengths of lists, a rank-ordered permutation of all results, '
+                   'and stopping after k rounds gives exactly its first k elements (Get(i) independent of earlier requests); '
+                   'pass-through Get(i) is the i-th loaded item (reversed under --tac) for every chunk layout with a partial first '
+                   'chunk; util.AsUint16 as translated from the source is the clamp of the model. Merger.Get under arbitrary '
                    'probe orders, PassMerger over --tail-trimmed chunk layouts, buildResult and whole filter runs are compared '
                    'with the model and judged against "the i-th element of the one sorted permutation".',
         level_note='Partial: lazy merge = sort and pass-through index arithmetic for ALL layouts are checked per case, not yet '
